@@ -26,7 +26,17 @@ import collections
 import numpy as np
 
 STATS = collections.Counter()
-STATE = {'on': True, 'p': 0.35, 'seed': 0, 'depth': 0}
+STATE = {'on': True, 'p': 0.35, 'seed': 0}
+import threading as _threading
+_TL = _threading.local()          # nesting depth of wrapped calls, per thread
+
+
+def _depth():
+    return getattr(_TL, 'depth', 0)
+
+
+def _bump(d):
+    _TL.depth = _depth() + d
 
 CLASSES = [
     ('pytorch_wavelets.dwt.transform1d', 'DWT1DForward'), ('pytorch_wavelets.dwt.transform1d', 'DWT1DInverse'),
@@ -138,7 +148,11 @@ def _history(self, call, args, bits):
             STATS['step_grad_call'] += 1
         except Exception:
             STATS['step_grad_call_raised'] += 1
-    if bits & 4:
+    # steps that temporarily CHANGE the instance (filters through other values, dtype round trip) are only sound while no
+    # other thread can be using it: with several threads alive they would be a race made by the harness, not by the library
+    import threading
+    alone = threading.active_count() == 1
+    if bits & 4 and alone:
         sd = {k: v.clone() for k, v in self.state_dict().items()}
         if sd:
             other = {k: (v.flip(-1) * 1.5 + 0.25 if v.is_floating_point() and v.numel() and v.dim() else v.clone()) for k, v in sd.items()}
@@ -149,7 +163,7 @@ def _history(self, call, args, bits):
             finally:
                 self.load_state_dict(sd)
             STATS['step_state_detour'] += 1
-    if bits & 8:
+    if bits & 8 and alone:
         bufs = [v for v in self.state_dict().values() if v.is_floating_point()]
         if bufs and all(v.dtype == torch.float64 for v in bufs) and all(_f32_exact(v) for v in bufs):
             self.float()
@@ -203,21 +217,21 @@ def _season_class(cls):
 
     def __call__(self, *args, **kw):
         bits = 0
-        if STATE['on'] and STATE['depth'] == 0 and not kw and not self.__dict__.get('_vp_called'):
+        if STATE['on'] and _depth() == 0 and not kw and not self.__dict__.get('_vp_called'):
             self.__dict__['_vp_called'] = True
             bits = _recipe(cls.__name__, args)
             if bits:
-                STATE['depth'] += 1
+                _bump(1)
                 try:
                     _history(self, lambda m, a: orig(m, *a), args, bits)
                 finally:
-                    STATE['depth'] -= 1
+                    _bump(-1)
         out = orig(self, *args, **kw)
         if bits & 0x300:
             # AFTER the call under test: the same instance (and a fresh twin) transform other data of the same
             # shape.  What the first call returned must not change (no shared output workspace).
             import torch
-            STATE['depth'] += 1
+            _bump(1)
             try:
                 with torch.no_grad():
                     if bits & 0x100:
@@ -229,7 +243,7 @@ def _season_class(cls):
             except Exception:
                 STATS['post_call_raised'] += 1
             finally:
-                STATE['depth'] -= 1
+                _bump(-1)
         return out
     cls.__call__ = __call__
     cls._vp_seasoned = True
